@@ -45,6 +45,9 @@ size_t __sanitizer_get_current_allocated_bytes(void);
 #include <cmr/equimodular.h>
 #include <cmr/separation.h>
 #include <cmr/matroid.h>
+#include <cmr/element.h>
+#include "linear_algebra_internal.h"
+#include "hashtable.h"
 #include <cmr/graph.h>
 #include <cmr/element.h>
 #include <cmr/linear_algebra.h>
@@ -1692,6 +1695,40 @@ static void do_textread(CMR* cmr)
   free(buf);
 }
 
+/* ---------- pure leaf functions, called directly (tie of the translated definitions, LeafGen.v) ----------
+ * case: fn args..   record: fn nargs args.. result */
+static void do_leaf(CMR* cmr)
+{
+  (void) cmr;
+  long long fn = nx();
+  long long a = nx();
+  long long b = (fn <= 1) ? nx() : 0;
+  long long r = 0;
+  switch (fn)
+  {
+    case 0: r = moduloNonnegative((int) a, (int) b); break;
+    case 1: r = moduloTernary((int) a, (int) b); break;
+    case 2: r = projectSignedHash(a); break;
+    case 3: r = CMRelementIsValid((CMR_ELEMENT) a) ? 1 : 0; break;
+    case 4: r = CMRrowToElement((size_t) a); break;
+    case 5: r = CMRcolumnToElement((size_t) a); break;
+    case 6: r = CMRelementIsRow((CMR_ELEMENT) a) ? 1 : 0; break;
+    case 7: r = (long long) CMRelementToRowIndex((CMR_ELEMENT) a); break;
+    case 8: r = CMRelementIsColumn((CMR_ELEMENT) a) ? 1 : 0; break;
+    case 9: r = (long long) CMRelementToColumnIndex((CMR_ELEMENT) a); break;
+    case 10: r = CMRelementTranspose((CMR_ELEMENT) a); break;
+    default: r = 0;
+  }
+  rec_begin();
+  oi(fn);
+  oi(fn <= 1 ? 2 : 1);
+  oi(a);
+  if (fn <= 1)
+    oi(b);
+  oi(r);
+  rec_end();
+}
+
 /* case: wantlabels nbytes bytes...   record: nbytes bytes.. rc nnodes haslabels [nn (len bytes..)*] nedges (u v element)* */
 static void do_edgelist(CMR* cmr)
 {
@@ -2204,12 +2241,13 @@ static struct
   {"equimod", do_equimod},        /* 18 */
   {"matutil", do_matutil},        /* 19 */
   {"edgelist", do_edgelist},      /* 20 */
+  {"leaf", do_leaf},              /* 21 */
   {"tlimit", do_tlimit},
   {"hist", do_hist},
   {"threads", do_threads},
   {NULL, NULL}
 };
-#define NUM_SUB_APIS 21
+#define NUM_SUB_APIS 22
 
 /* ---------- running a handler with its record captured in memory ---------- */
 
